@@ -15,14 +15,14 @@
 (* choices; the history is explainable iff some path consumes every event  *)
 (* and ends in the observed final state of the store.                      *)
 (***************************************************************************)
-EXTENDS Mailstore, Json, TLC, IOUtils
+EXTENDS ConcMailstore, Json, TLC, IOUtils
 
 TraceLog == ndJsonDeserialize(IOEnv.VERIF_TRACE)
 
 VARIABLES l,        \* next event
           pend,     \* calls invoked and not yet linearized: set of [op, idx] (idx: position of the inv event)
           lind      \* calls linearized, response not yet seen: set of op numbers
-tvars == <<boxes, used, arrival, cap, limit, l, pend, lind>>
+tvars == <<boxes, used, arrival, cap, limit, doomed, l, pend, lind>>
 
 Ev == TraceLog[l]
 Is(a) == l <= Len(TraceLog) /\ Ev.a = a /\ l' = l + 1
@@ -34,13 +34,13 @@ SnapOK(b) == /\ Ev.serr = <<>>
              /\ ToSet(Ev.s) = Snap(b)
 
 TraceInit == /\ l = 1 /\ pend = {} /\ lind = {}
-             /\ Init(0, 0)
+             /\ CInit(0, 0)
 
 TrReset == /\ Is("reset")
            /\ boxes' = [m \in Mailbox |-> <<>>]
            /\ used' = [m \in Mailbox |-> {}]
            /\ arrival' = <<>>
-           /\ cap' = Ev.cap /\ limit' = Ev.limit
+           /\ cap' = Ev.cap /\ limit' = Ev.limit /\ doomed' = {}
            /\ pend' = {} /\ lind' = {}
            /\ Mark
 
@@ -48,11 +48,11 @@ TrReset == /\ Is("reset")
 TrAdd == /\ Is("add") /\ Ev.r = "ok"
          /\ Add(Ev.mb, Ev.id, Ev.meta, Ev.size)
          /\ SnapOK(boxes')
-         /\ UNCHANGED <<pend, lind>> /\ Mark
+         /\ UNCHANGED <<pend, lind, doomed>> /\ Mark
 
 TrInv == /\ Is("inv")
          /\ pend' = pend \cup {[op |-> Ev.op, idx |-> l]}
-         /\ UNCHANGED <<svars, lind>> /\ Mark
+         /\ UNCHANGED <<cvars, lind>> /\ Mark
 
 (* concurrent reads are compared on what the call itself returns: identity,  *)
 (* metadata and size (content is read separately; the seen flag of the       *)
@@ -62,17 +62,17 @@ Lite(x) == [id |-> x.id, from |-> x.meta.from, to |-> x.meta.to, subject |-> x.m
 Lites(sq) == [i \in DOMAIN sq |-> Lite(sq[i])]
 (* the call c (its inv event) takes effect now *)
 Apply(c) ==
-    CASE c.k = "add"    -> c.r = "ok" /\ AddBase(c.mb, c.id, c.meta, c.size)
-      [] c.k = "remove" -> c.r = ByIdRes(c.mb, c.id) /\ RemoveMsg(c.mb, c.id)
-      [] c.k = "seen"   -> c.r = ByIdRes(c.mb, c.id) /\ MarkSeen(c.mb, c.id)
-      [] c.k = "purge"  -> c.r = "ok" /\ Purge(c.mb)
+    CASE c.k = "add"    -> c.r = "ok" /\ CAdd(c.mb, c.id, c.meta, c.size)
+      [] c.k = "remove" -> c.r = ByIdRes(c.mb, c.id) /\ CRemove(c.mb, c.id)
+      [] c.k = "seen"   -> c.r = ByIdRes(c.mb, c.id) /\ CSeen(c.mb, c.id)
+      [] c.k = "purge"  -> c.r = "ok" /\ CPurge(c.mb)
       [] c.k = "get"    -> /\ c.r = GetRes(c.mb, c.id).r
                            /\ (c.r = "ok" => c.msg = Lite(GetRes(c.mb, c.id).msg))
-                           /\ UNCHANGED svars
+                           /\ UNCHANGED cvars
       [] c.k = "latest" -> /\ c.r = LatestRes(c.mb).r
                            /\ (c.r = "ok" => c.msg = Lite(LatestRes(c.mb).msg))
-                           /\ UNCHANGED svars
-      [] c.k = "list"   -> c.r = "ok" /\ c.msgs = Lites(ListRes(c.mb)) /\ UNCHANGED svars
+                           /\ UNCHANGED cvars
+      [] c.k = "list"   -> c.r = "ok" /\ c.msgs = Lites(ListRes(c.mb)) /\ UNCHANGED cvars
       [] OTHER          -> FALSE        \* e.g. "visit-error": a visit that failed is not explainable
 Lin == \E p \in pend :
           /\ Apply(TraceLog[p.idx])
@@ -82,18 +82,18 @@ Lin == \E p \in pend :
 
 (* the size enforcer is a concurrent client of its own (C09): it evicts the  *)
 (* store-wide oldest message while the store is over its limit              *)
-Enforcer == EvictOne /\ UNCHANGED <<l, pend, lind>>
+Enforcer == CEvict /\ UNCHANGED <<l, pend, lind>>
 
 TrRes == /\ Is("res")
          /\ Ev.op \in lind
          /\ lind' = lind \ {Ev.op}
-         /\ UNCHANGED <<svars, pend>> /\ Mark
+         /\ UNCHANGED <<cvars, pend>> /\ Mark
 
 (* all goroutines have finished: the store is what the linearization left *)
 TrFinal == /\ Is("final") /\ pend = {} /\ lind = {}
-           /\ SizeInv                      \* at rest the store is within its limit
+           /\ AtRest                       \* nothing doomed is left, the store is within its limit
            /\ SnapOK(boxes)
-           /\ UNCHANGED <<svars, pend, lind>> /\ Mark
+           /\ UNCHANGED <<cvars, pend, lind>> /\ Mark
 
 TraceNext == TrReset \/ TrAdd \/ TrInv \/ Lin \/ Enforcer \/ TrRes \/ TrFinal
 TraceSpec == TraceInit /\ [][TraceNext]_tvars
